@@ -240,10 +240,15 @@ def main():
             # every third scenario interleaves calls that must only READ the solver (get_solution in all copy/best combinations,
             # evaluations, get_residuals, get_internals) with the fits: the parameters must keep moving exactly as modelled
             reads = i % 3 == 1
+            # every fourth scenario draws batches of DIFFERENT sizes inside one epoch with n_batches >= 2 (variable-size
+            # generators such as FilterGenerator): the recorded loss is the mean over the BATCHES of loss_fn, not a mean
+            # weighted by the number of points (seeded change C04/i)
+            ragged = i % 4 == 2 and not reads
             sc = T.gen_scenario(r, opt_kinds=('sgd', 'script', 'sgd'), cb_actions=('stop', 'set_loss', 'set_opt'),
                                 between_actions=('get_internals', 'set_loss') if reads else (('set_loss',) if i % 5 == 0 else ()),
-                                lids=(0, 1) if reads else (0, 1, 0, 2, 3), max_epochs=(1, 4) if reads else (0, 5),
-                                nmetrics=(0, 2), variadic_spherical=(i % 3 != 0), sol_ops=reads, n_fits=(2, 4) if reads else (1, 4))
+                                lids=(0, 1) if (reads or ragged) else (0, 1, 0, 2, 3), max_epochs=(1, 4) if (reads or ragged) else (0, 5),
+                                nmetrics=(0, 2), variadic_spherical=(i % 3 != 0), sol_ops=reads, n_fits=(2, 4) if reads else (1, 4),
+                                ragged=ragged, **({'nbt': (2, 3), 'nbv': (0, 3)} if ragged else {}))
             if sc['opt']['kind'] == 'script' and i % 2 == 0:
                 sc['gen_kind'] = 'index'            # batches with autograd history under a closure optimiser
                 sc['raise_key'] = 'closure-optimiser/raises/generator-with-autograd-history'
@@ -264,7 +269,9 @@ def main():
         ck.notes.append('search: a broken obligation without a failing input -> the oracle alone was run on 4x more scenarios')
         r2 = ck.rng('search')
         for i in range(4 * n):
-            sc = T.gen_scenario(r2, opt_kinds=('sgd', 'script', 'lbfgs'), cb_actions=('stop', 'set_loss', 'set_opt'), lids=(0, 1, 3))
+            rg = i % 2 == 0
+            sc = T.gen_scenario(r2, opt_kinds=('sgd', 'script', 'lbfgs'), cb_actions=('stop', 'set_loss', 'set_opt'), lids=(0, 1) if rg else (0, 1, 3),
+                                ragged=rg, **({'nbt': (2, 3), 'nbv': (0, 3)} if rg else {}))
             rec = camp.add(f'search#{i}', sc, coq=False)
             if rec:
                 trajectory_oracle(ck, sc, rec)
